@@ -139,7 +139,11 @@ func (in *Interp) sqlCheckOverflow(t *sym.Term) *sym.Term {
 		return t
 	}
 	if r == sym.Sat {
-		in.fail("unsupported", "sql: integer overflow in SQL arithmetic (SQLite would promote to REAL); outside the model, harness must bound balances")
+		// fork: the overflowing inputs end as unsupported (the run is inconclusive for them),
+		// the others go on, so that a violation among them is still found and reported
+		if in.Branch(over) {
+			in.fail("unsupported", "sql: integer overflow in SQL arithmetic (SQLite would promote to REAL); outside the model, harness must bound balances")
+		}
 	}
 	return t
 }
